@@ -521,7 +521,12 @@ type gaugeResult struct {
 	Before     int64         `json:"gauge_before"`
 	OpenBefore int64         `json:"open_before"`
 	After      int64         `json:"gauge_after"`
-	Err        string        `json:"err,omitempty"`
+	// direct-* scenarios (martian Shutdown called with our own context): 0 not applicable, 1 Shutdown returned nil,
+	// 2 it returned exactly ctx.Err(), 3 it returned anything else; SdWant is what the property demands
+	Sd     int    `json:"shutdown_result"`
+	SdWant int    `json:"shutdown_want"`
+	SdErr  string `json:"shutdown_err,omitempty"`
+	Err    string `json:"err,omitempty"`
 }
 
 func gaugeValue(reg *prometheus.Registry, suffix string) int64 {
@@ -547,6 +552,9 @@ func gaugeValue(reg *prometheus.Registry, suffix string) int64 {
 // connection), client gone, served with Connection: close - and one that stays idle until the forced
 // close.  The gauge listener_cx_active must equal the connections still open, and be 0 after Run.
 func runGauge(sc gaugeScenario) (res gaugeResult) {
+	if strings.HasPrefix(sc.Stack, "direct-") {
+		return runDirect(sc)
+	}
 	res.Sc = sc
 	pp, tl := strings.Contains(sc.Stack, "pp"), strings.Contains(sc.Stack, "tls")
 	ol, err := net.Listen("tcp", "127.0.0.1:0")
@@ -678,10 +686,120 @@ func runGauge(sc gaugeScenario) (res gaugeResult) {
 }
 
 func genGaugeScenarios() []gaugeScenario {
-	return []gaugeScenario{{"gauge/pp", "pp"}, {"gauge/pp+tls", "pp+tls"}, {"gauge/plain", "plain"}, {"gauge/tls", "tls"}}
+	return []gaugeScenario{{"gauge/pp", "pp"}, {"gauge/pp+tls", "pp+tls"}, {"gauge/plain", "plain"}, {"gauge/tls", "tls"},
+		{"direct/tunnel-client-reset", "direct-reset"}, {"direct/context-with-cause", "direct-cause"}}
+}
+
+// runDirect: martian's Shutdown called with a context of our own on a proxy that serves one CONNECT tunnel to an
+// origin that only reads.
+//   direct-reset: the client disappears with a TCP reset (SO_LINGER 0); the tunnel must be torn down (the origin gets
+//     its EOF), so a Shutdown with a 3 s deadline returns nil and the counter is 0 afterwards.
+//   direct-cause: the client stays; the context carries a cause and expires before the drain can finish: Shutdown must
+//     return the context's error (ctx.Err(), context.DeadlineExceeded), not the cause.
+// The result travels as a gauge case: Before = OpenBefore = 0 (not applicable), After = martian's counter at the end.
+func runDirect(sc gaugeScenario) (res gaugeResult) {
+	res.Sc = sc
+	ol, err := net.Listen("tcp", "127.0.0.1:0")
+	if err != nil {
+		res.Err = err.Error()
+		return
+	}
+	defer ol.Close()
+	go func() {
+		for {
+			c, err := ol.Accept()
+			if err != nil {
+				return
+			}
+			go func() {
+				io.Copy(io.Discard, c) //nolint:errcheck // the origin only reads; on EOF it closes
+				c.Close()
+			}()
+		}
+	}()
+	cfg := forwarder.DefaultHTTPProxyConfig()
+	cfg.Address = "127.0.0.1:0"
+	cfg.ProxyLocalhost = forwarder.AllowProxyLocalhost
+	cfg.PromRegistry = prometheus.NewRegistry()
+	hp, err := forwarder.NewHTTPProxy(cfg, nil, nil, &http.Transport{}, log.NopLogger, nil)
+	if err != nil {
+		res.Err = "new proxy: " + err.Error()
+		return
+	}
+	hp.Close() // its own listener is not used
+	tcp, err := net.Listen("tcp", "127.0.0.1:0")
+	if err != nil {
+		res.Err = err.Error()
+		return
+	}
+	go hp.VerifC11Serve(tcp) //nolint:errcheck
+	c, err := net.DialTimeout("tcp", tcp.Addr().String(), time.Second)
+	if err != nil {
+		res.Err = err.Error()
+		return
+	}
+	defer c.Close()
+	oaddr := ol.Addr().String()
+	fmt.Fprintf(c, "CONNECT %s HTTP/1.1\r\nHost: %s\r\n\r\n", oaddr, oaddr)
+	c.SetReadDeadline(time.Now().Add(2 * time.Second)) //nolint:errcheck
+	br := bufio.NewReader(c)
+	resp, err := http.ReadResponse(br, &http.Request{Method: http.MethodConnect})
+	if err != nil || resp.StatusCode != 200 {
+		res.Err = fmt.Sprintf("CONNECT: %v %v", resp, err)
+		return
+	}
+	res.Served = true
+	io.WriteString(c, "hello") //nolint:errcheck
+	time.Sleep(50 * time.Millisecond)
+	code := func(err error, ctx context.Context) int {
+		switch {
+		case err == nil:
+			return 1
+		case err == ctx.Err() && errors.Is(err, context.DeadlineExceeded): //nolint:errorlint // identity is the point
+			return 2
+		}
+		return 3
+	}
+	waitZero := func(d time.Duration) {
+		for t0 := time.Now(); time.Since(t0) < d && hp.VerifC11Counter() != 0; {
+			time.Sleep(10 * time.Millisecond)
+		}
+	}
+	switch sc.Stack {
+	case "direct-reset":
+		res.SdWant = 1
+		if tc, ok := c.(*net.TCPConn); ok {
+			tc.SetLinger(0) //nolint:errcheck
+		}
+		c.Close()
+		time.Sleep(200 * time.Millisecond)
+		ctx, cancel := context.WithTimeout(context.Background(), 3*time.Second)
+		err := hp.VerifC11Shutdown(ctx)
+		res.Sd = code(err, ctx)
+		cancel()
+		if err != nil {
+			res.SdErr = err.Error()
+		}
+		res.After = int64(hp.VerifC11Counter())
+		hp.VerifC11Close() //nolint:errcheck
+	case "direct-cause":
+		res.SdWant = 2
+		ctx, cancel := context.WithTimeoutCause(context.Background(), 150*time.Millisecond, errors.New("maintenance window over"))
+		err := hp.VerifC11Shutdown(ctx)
+		res.Sd = code(err, ctx)
+		cancel()
+		if err != nil {
+			res.SdErr = err.Error()
+		}
+		hp.VerifC11Close() //nolint:errcheck
+		c.Close()
+		waitZero(2 * time.Second)
+		res.After = int64(hp.VerifC11Counter())
+	}
+	return res
 }
 
 func coqGauge(g gaugeResult) string {
-	return fmt.Sprintf("{| g_served := %s; g_before := (%d)%%Z; g_open_before := (%d)%%Z; g_after := (%d)%%Z |}",
-		coqBool(g.Served), g.Before, g.OpenBefore, g.After)
+	return fmt.Sprintf("{| g_served := %s; g_before := (%d)%%Z; g_open_before := (%d)%%Z; g_after := (%d)%%Z; g_sd := %d%%N; g_sd_want := %d%%N |}",
+		coqBool(g.Served), g.Before, g.OpenBefore, g.After, g.Sd, g.SdWant)
 }
